@@ -1752,9 +1752,295 @@ func (e *c05Env) phaseUnmarshal() {
 }
 
 // ---------------------------------------------------------------------------------------------
+// Phase H: correspondence of the Lean models (Model/Resume.lean) with the real resumable scanners
+
+func c05WireErr(err error) string {
+	switch {
+	case err == nil:
+		return "ok"
+	case err == io.ErrUnexpectedEOF:
+		return "eof"
+	case err == jsonwire.ErrInvalidUTF8:
+		return "utf8"
+	}
+	if te, ok := err.(*jsonwire.InvalidTextError); ok {
+		if te.Label == "character" {
+			return "char"
+		}
+		return "esc"
+	}
+	return fmt.Sprintf("other:%T", err)
+}
+
+func c05ClassToWire(ecl string) string {
+	switch ecl {
+	case "nil":
+		return "ok"
+	case "SYN:ueof":
+		return "eof"
+	case "SYN:utf8":
+		return "utf8"
+	case "SYN:text:character":
+		return "char"
+	case "SYN:text:escape sequence", "SYN:text:surrogate pair":
+		return "esc"
+	}
+	return ecl
+}
+
+type c05CorrCase struct {
+	line string
+	want string
+	in   []byte
+	op   string
+}
+
+func (e *c05Env) phaseCorrespondence() {
+	c := e.c
+	or := c.NewOracle()
+	if or == nil {
+		c.Note("phase H skipped: no oracle")
+		return
+	}
+	r := c05Rng(c, 8, 0)
+	g := c05Gen{r}
+	var cases []c05CorrCase
+	strR := func(validate bool, resume int, fl uint, b []byte) (int, uint, string) {
+		var n int
+		var err error
+		flags := jsonwire.ValueFlags(fl)
+		if p := guard(func() { n, err = jsonwire.ConsumeStringResumable(&flags, b, resume, validate) }); p != nil {
+			c.Panic("ConsumeStringResumable", b, p, map[string]any{"resume": resume, "flags": fl, "validate": validate})
+			return 0, 0, "panic"
+		}
+		return n, uint(flags), c05WireErr(err)
+	}
+	numR := func(resume int, st uint, b []byte) (int, uint, string) {
+		var n int
+		var err error
+		var st2 jsonwire.ConsumeNumberState
+		if p := guard(func() { n, st2, err = jsonwire.ConsumeNumberResumable(b, resume, jsonwire.ConsumeNumberState(st)) }); p != nil {
+			c.Panic("ConsumeNumberResumable", b, p, map[string]any{"resume": resume, "state": st})
+			return 0, 0, "panic"
+		}
+		return n, uint(st2), c05WireErr(err)
+	}
+	b2i := func(b bool) int {
+		if b {
+			return 1
+		}
+		return 0
+	}
+	addStr := func(validate bool, resume int, fl uint, b []byte) (int, uint, string) {
+		n, f2, er := strR(validate, resume, fl, b)
+		cases = append(cases, c05CorrCase{fmt.Sprintf("dec strR %d %d %d %s", b2i(validate), resume, fl, hx(b)), fmt.Sprintf("%d %d %s", n, f2, er), b, "strR"})
+		return n, f2, er
+	}
+	addNum := func(resume int, st uint, b []byte) (int, uint, string) {
+		n, st2, er := numR(resume, st, b)
+		cases = append(cases, c05CorrCase{fmt.Sprintf("dec numR %d %d %s", resume, st, hx(b)), fmt.Sprintf("%d %d %s", n, st2, er), b, "numR"})
+		return n, st2, er
+	}
+	// tokens
+	var strs, nums [][]byte
+	for _, t := range c05StraddleTokens {
+		if t[0] == '"' {
+			strs = append(strs, []byte(t))
+		} else {
+			nums = append(nums, []byte(t))
+		}
+	}
+	for _, p := range c05BadPieces {
+		strs = append(strs, []byte(`"ab`+p+`c"`), []byte(`"`+p+`"`))
+	}
+	for _, p := range c05EscPieces {
+		strs = append(strs, []byte(`"`+p+p+`"`), []byte(`"x`+p+`"`))
+	}
+	for _, hi := range []string{"d800", "D83D", "dbff", "DBFF", "dc00", "dfff", "d7ff", "e000"} {
+		for _, lo := range []string{"dc00", "DE00", "dfff", "d800", "dbff", "e000", "0041", "DC0G", "dC00"} {
+			strs = append(strs, []byte(`"`+c05BU+hi+c05BU+lo+`"`), []byte(`"`+c05BU+hi+`\`+`n"`), []byte(`"`+c05BU+hi+`\`+`U`+lo+`"`))
+		}
+	}
+	nT := c.N(1500, 40000)
+	for i := 0; i < nT; i++ {
+		strs = append(strs, g.str(1+r.IntN(8), true))
+		nums = append(nums, g.num(true))
+	}
+	alpha := []byte(`\\\uu"/bnrtx d8dcDC0019afAF` + "\x00\x1f\x7f\x80\xbf\xc2\xe0\xed\xef\xf0\xf4\xff\xa0\x90")
+	nalpha := []byte("--++..eE00123456789 x,]")
+	for i := 0; i < nT; i++ {
+		k := 1 + r.IntN(14)
+		sb := []byte{'"'}
+		nb := []byte{}
+		for j := 0; j < k; j++ {
+			sb = append(sb, alpha[r.IntN(len(alpha))])
+			nb = append(nb, nalpha[r.IntN(len(nalpha))])
+		}
+		if r.IntN(2) == 0 {
+			sb = append(sb, '"')
+		}
+		strs = append(strs, sb)
+		nums = append(nums, nb)
+	}
+	nResumeBad := 0
+	for ti, t := range strs {
+		validate := ti%3 != 0
+		whole := -1
+		for cut := 0; cut <= len(t); cut++ {
+			n, f2, er := addStr(validate, 0, uint(ti%4), t[:cut])
+			c.Hit("corr:strR:" + er)
+			if er == "eof" {
+				// resume on a longer prefix and on the whole token: model agreement AND (Go vs Go) resumed == from scratch
+				ext := cut + 1 + r.IntN(len(t)-cut+1)
+				if ext > len(t) {
+					ext = len(t)
+				}
+				for _, q := range []int{ext, len(t)} {
+					rn, rf, re := addStr(validate, n, f2, t[:q])
+					sn, sf, se := strR(validate, 0, uint(ti%4), t[:q])
+					if rn != sn || rf != sf || re != se {
+						nResumeBad++
+						c.Violate("resume-mismatch", "ConsumeStringResumable:resumed-vs-from-scratch", t, map[string]any{"token": string(t), "cut": cut, "extended_to": q,
+							"resumed": fmt.Sprintf("%d %d %s", rn, rf, re), "from_scratch": fmt.Sprintf("%d %d %s", sn, sf, se)})
+					}
+				}
+			} else if whole < 0 {
+				whole = cut
+			}
+		}
+		// arbitrary resume arguments (the model must agree on every input, not only on reachable ones)
+		if ti%4 == 0 && len(t) > 0 {
+			addStr(validate, r.IntN(len(t)+2), uint(r.IntN(4)), t)
+		}
+		c.Case("H|s|"+string(t), len(t) > 2)
+	}
+	for ti, t := range nums {
+		for cut := 0; cut <= len(t); cut++ {
+			n, st, er := addNum(0, 0, t[:cut])
+			c.Hit("corr:numR:" + er)
+			if er == "eof" || (er == "ok" && n == cut) {
+				ext := cut + 1 + r.IntN(len(t)-cut+1)
+				if ext > len(t) {
+					ext = len(t)
+				}
+				for _, q := range []int{ext, len(t)} {
+					rn, rst, re := addNum(n, st, t[:q])
+					sn, sst, se := numR(0, 0, t[:q])
+					resumable := se == "eof" || (se == "ok" && sn == q)
+					if rn != sn || re != se || (resumable && rst != sst) {
+						nResumeBad++
+						c.Violate("resume-mismatch", "ConsumeNumberResumable:resumed-vs-from-scratch", t, map[string]any{"token": string(t), "cut": cut, "extended_to": q,
+							"resumed": fmt.Sprintf("%d %d %s", rn, rst, re), "from_scratch": fmt.Sprintf("%d %d %s", sn, sst, se)})
+					}
+				}
+			}
+		}
+		if ti%4 == 0 {
+			addNum(r.IntN(len(t)+2), uint(r.IntN(8)), t)
+		}
+		c.Case("H|n|"+string(t), len(t) > 1)
+	}
+	// whitespace / literals
+	for i := 0; i < 400; i++ {
+		k := r.IntN(10)
+		var b []byte
+		for j := 0; j < k; j++ {
+			b = append(b, " \t\r\n x\v"[r.IntN(7)])
+		}
+		cases = append(cases, c05CorrCase{"dec ws " + hx(b), fmt.Sprint(jsonwire.ConsumeWhitespace(b)), b, "ws"})
+		lit := []string{"null", "true", "false"}[r.IntN(3)]
+		lb := []byte(lit)
+		if r.IntN(2) == 0 {
+			lb[r.IntN(len(lb))] = "nulltruefalseX "[r.IntN(15)]
+		}
+		lb = append(lb, "x ,"[r.IntN(3)])
+		lb = lb[:r.IntN(len(lb)+1)]
+		n, err := jsonwire.ConsumeLiteral(lb, lit)
+		cases = append(cases, c05CorrCase{"dec lit " + hx([]byte(lit)) + " " + hx(lb), fmt.Sprintf("%d %s", n, c05WireErr(err)), lb, "lit"})
+	}
+	// the refill loops of the decoder itself: a top-level token delivered in chunks
+	nChunk := c.N(3000, 60000)
+	for i := 0; i < nChunk; i++ {
+		var t []byte
+		isStr := i%2 == 0
+		if isStr {
+			t = strs[r.IntN(len(strs))]
+		} else {
+			t = nums[r.IntN(len(nums))]
+			if len(t) == 0 || !(t[0] == '-' || ('0' <= t[0] && t[0] <= '9')) {
+				continue
+			}
+		}
+		if len(t) == 0 || len(t) > 60 {
+			continue
+		}
+		validate := i%4 < 2
+		plan := c05Plan{kind: "chunks", name: "corr", faultAt: -1}
+		line := "dec chunkN"
+		if isStr {
+			line = fmt.Sprintf("dec chunkS %d", b2i(validate))
+		}
+		for pos := 0; pos < len(t); {
+			k := 1 + r.IntN(len(t)-pos)
+			if r.IntN(3) == 0 {
+				k = 1 + r.IntN(min(3, len(t)-pos))
+			}
+			plan.chunks = append(plan.chunks, k)
+			line += " " + hx(t[pos:pos+k])
+			pos += k
+		}
+		optSel := 0
+		if !validate {
+			optSel = 2
+		}
+		run, _ := c05RunStream(c, t, plan, optSel, []byte("T"), false, 0)
+		if run.panicked != nil || len(run.recs) != 1 {
+			continue
+		}
+		rc := run.recs[0]
+		var want string
+		if rc.ecl == "nil" {
+			want = fmt.Sprintf("%d ok", rc.off)
+		} else {
+			want = fmt.Sprintf("%d %s", rc.eoff, c05ClassToWire(rc.ecl))
+		}
+		op := "chunkN"
+		if isStr {
+			op = "chunkS"
+		}
+		cases = append(cases, c05CorrCase{line, want, t, op})
+		c.Hit("corr:" + op + ":" + c05ClassToWire(rc.ecl))
+	}
+	lines := make([]string, len(cases))
+	for i, cs := range cases {
+		lines[i] = cs.line
+	}
+	ans := or.Ask(lines)
+	bad := 0
+	for i, cs := range cases {
+		got := ans[i]
+		if cs.op == "chunkS" {
+			// the decoder does not expose the value flags: compare n and the class
+			f := strings.Fields(got)
+			if len(f) == 3 {
+				got = f[0] + " " + f[2]
+			}
+		}
+		if got != cs.want {
+			bad++
+			c.Violate("corr-resume", "dec "+cs.op, cs.in, map[string]any{"line": cs.line, "implementation": cs.want, "model": ans[i], "input": string(cs.in)})
+		}
+	}
+	c.HitN("corr:lines", int64(len(cases)))
+	c.Note("phase H: %d correspondence lines (strR/numR on every prefix of %d strings and %d numbers incl. resumed calls, ws, lit, chunk loops through the real decoder), %d disagreements; resumed-vs-from-scratch (Go vs Go) mismatches: %d",
+		len(cases), len(strs), len(nums), bad, nResumeBad)
+}
+
+// ---------------------------------------------------------------------------------------------
 
 func runC05(c *Ctx) {
 	e := &c05Env{c: c, minimise: map[string]int{}}
+	e.phaseCorrespondence()
 	e.phaseExhaustive()
 	c.Note("after phase A (exhaustive interleavings): %d stream runs", e.cases.Load())
 	e.phaseFaults()
